@@ -65,21 +65,24 @@ inductive LoopEnd where
 /-- the `while let Some(next_char) = self.cursor.peek()` loop of `lex`, with the
 iteration budget of the verification hook (`8·len + 64`). Returns how it ended and the
 number of iterations. -/
-def mainLoop (cfg : Cfg) : Nat → Nat → Prog (LoopEnd × Nat)
-  | 0, n => do
+def mainLoop (cfg : Cfg) : Nat → Nat → (Nat × List Mode) → Prog (LoopEnd × Nat)
+  | 0, n, _ => do
     match (← peek) with
     | none => pure (.eof, n)
     | some _ => pure (.budget, n + 1)
-  | f + 1, n => do
+  | f + 1, n, last => do
     match (← peek) with
     | none => pure (.eof, n)
     | some c =>
       lexToken cfg c
       if cfg.debug then
-        if (← perform .loopCheck) then
+        -- `last_state` of the debug-only loop detector is a local of the main loop
+        let st ← perform .loopProbe
+        if last == st then
           emitError .InternalErrorInfiniteLoop
           return (.detected, n + 1)
-      mainLoop cfg f (n + 1)
+        mainLoop cfg f (n + 1) st
+      else mainLoop cfg f (n + 1) last
 
 structure LexOut where
   ending : Option LoopEnd        -- `none`: panicked
@@ -99,7 +102,7 @@ def budgetMul : Nat := 8
 def lexProgram (cfg : Cfg) (s : List Char) : LexOut :=
   let L0 := Lexer.new cfg s
   let budget := budgetMul * L0.srcLen + 64
-  match Prog.run cfg (mainLoop cfg budget 0) L0 with
+  match Prog.run cfg (mainLoop cfg budget 0 (L0.srcLen, [.default])) L0 with
   | (none, L) => { ending := none, iters := 0, snap := none, final := L, buf := ⟨[], [], []⟩ }
   | (some (e, n), L1) =>
     let snap := snapshotOf L1
